@@ -68,7 +68,7 @@ theorem count_proj [DecidableEq α] (i : Nat) (v : α) (l : List (Nat × α)) :
     · subst hj
       by_cases hw : w = v
       · subst hw; simp
-      · simp [hw, List.count_cons]
+      · simp [hw]
     · simp [hj]
 
 /-- equal per-source subsequences ⇒ same multiset of tagged items -/
@@ -191,7 +191,7 @@ theorem step_fields {m m' : Merge α} {a : Act α} {em : Option (Nat × α)} (hs
 
 theorem filterMap_cons_toList {γ δ : Type} (f : γ → Option δ) (a : γ) (l : List γ) :
     List.filterMap f (a :: l) = (f a).toList ++ List.filterMap f l := by
-  cases h : f a <;> simp [List.filterMap_cons, h]
+  cases h : f a <;> simp [h]
 
 theorem exec_fields {m m' : Merge α} (acts : List (Act α)) (he : m.exec acts = some m') :
     m'.hist = m.hist ++ acts.filterMap Act.prodOf ∧ m'.errs = m.errs ++ acts.filterMap Act.errOf
